@@ -1,3 +1,4 @@
+import DaskModel.Generated.RewriteTables
 /-
 K12 `Match`: `dask/rewrite.py`, transliterated (the code after the two `fix:` commits 2ab889a, 88a2bf8; the
 pre-fix behaviour is kept in `matchLoopOld` / `iterMatchesOld` / `applySeq` for the refutation witnesses).
@@ -23,8 +24,9 @@ discrimination net `Node(edges,patterns)` `Net = List (List Edge × Nat)`: a tri
 `RuleSet.iter_matches`                   `iterMatches`
 `RewriteRule._apply` / `_substitute`     `substitute`
 `RuleSet._rewrite`, `_bottom_up`         `rewriteTop`, `bottomUp`
+`RuleSet.rewrite(task, strategy=…)`      `rewrite` over the extracted `strategies` table (`KeyError` for an unknown name)
 Unhashable atoms (the `except TypeError` around the exact-edge lookup) are not modelled.
-Import-free.
+No Mathlib.
 -/
 namespace Dask.Match
 
@@ -338,5 +340,24 @@ def bottomUpList (rules : List Rule) : List Term → Option (List Term)
   | [] => some []
   | t :: ts => (bottomUp rules t).bind fun t' => (bottomUpList rules ts).map (t' :: ·)
 end
+
+inductive RewriteResult where
+  | ok (t : Term)
+  | keyError          -- `strategies[strategy]` for a name that is not in the table
+  | outOfFuel
+  deriving Repr
+
+def strategyFn (name : String) : Option String :=
+  (Dask.Generated.RewriteTables.strategies.find? (·.1 == name)).map (·.2)
+
+/-- `RuleSet(*rules).rewrite(task, strategy)`; `strategy = none` = the argument is omitted (extracted default) -/
+def rewrite (rules : List Rule) (t : Term) (strategy : Option String) : RewriteResult :=
+  match strategyFn (strategy.getD Dask.Generated.RewriteTables.defaultStrategy) with
+  | none => .keyError
+  | some fn =>
+    let r := if fn == "_top_level" then rewriteTop rules t else if fn == "_bottom_up" then bottomUp rules t else none
+    match r with
+    | some t' => .ok t'
+    | none => .outOfFuel
 
 end Dask.Match
